@@ -551,3 +551,16 @@ def builds_message(e) -> bool:
             and f[1][:1] == ('const',) and isinstance(f[1][1], str):
         return True
     return False
+
+
+
+def memo_decorators(fnode) -> list:
+    """The caching decorators (functools.lru_cache / cache and look-alikes) of a def, as source text."""
+    import ast as _ast
+    from ..facts import norm as _norm
+    out = []
+    for d in getattr(fnode, 'decorator_list', []) or []:
+        name = _norm(d.func if isinstance(d, _ast.Call) else d).rsplit('.', 1)[-1]
+        if name in ('lru_cache', 'cache', 'cached', 'memoize', 'memoized', 'cached_property'):
+            out.append(_norm(d))
+    return out
